@@ -282,7 +282,7 @@ func corruptFrame(t *rapid.T, m *simrt.Msg) wsFrame {
 	}
 	generic := []string{"binary", "invalid-utf8", "not-json", "unknown-label", "wrong-arity", "label-not-string", "trailing-garbage"}
 	evOnly := []string{"pubkey-off-curve", "sig-r-out-of-range", "uppercase-id", "uppercase-sig", "mixedcase-sig", "uppercase-pubkey", "short-id", "kind-negative", "kind-too-large", "kind-string", "altered-content", "altered-id", "altered-pubkey", "altered-sig", "forged-sig", "missing-sig", "tags-not-array", "extra-member"}
-	reqOnly := []string{"negative-since", "negative-limit", "unknown-filter-key", "filter-not-object", "subid-number", "ids-uppercase", "kinds-string"}
+	reqOnly := []string{"negative-since", "negative-limit", "unknown-filter-key", "filter-not-object", "subid-number", "ids-uppercase", "ids-unicode-digit", "authors-unicode-digit", "etag-unicode-digit", "kinds-string"}
 	pool := append([]string{}, generic...)
 	switch m.T {
 	case "EVENT":
@@ -430,6 +430,21 @@ func corruptFrame(t *rapid.T, m *simrt.Msg) wsFrame {
 		w := msgWire(m)
 		w[2].(map[string]any)["ids"] = []string{strings.Repeat("AB", 32)}
 		f.Payload = marshalNoEscape(w)
+	case "ids-unicode-digit", "authors-unicode-digit", "etag-unicode-digit":
+		// 64 bytes of UTF-8 that are not 64 hex digits: 62 hex characters and
+		// one two-byte decimal digit of another script
+		v := strings.Repeat("ab", 31) + "\u0663"
+		w := msgWire(m)
+		fm := w[2].(map[string]any)
+		switch f.Kind {
+		case "ids-unicode-digit":
+			fm["ids"] = []string{v}
+		case "authors-unicode-digit":
+			fm["authors"] = []string{v}
+		default:
+			fm["#e"] = []string{v}
+		}
+		f.Payload = marshalNoEscape(w)
 	case "kinds-string":
 		w := msgWire(m)
 		w[2].(map[string]any)["kinds"] = []string{"1"}
@@ -471,6 +486,18 @@ func (wsEngine) Gen(t *rapid.T, tier string) any {
 			if prev != nil {
 				o := evJSON(prev.Msg.Ev.Event())
 				o["content"] = o["content"].(string) + " (edited)"
+				if rapid.IntRange(0, 1).Draw(t, "sigreuse") == 0 {
+					// a forgery that borrows the signature of the accepted event:
+					// other content and author, an id that is the correct hash of
+					// its own fields
+					pe := prev.Msg.Ev.Event()
+					pk := ref.Authors[(prev.Msg.Ev.Author+1)%4].Pubkey
+					content := "forged " + pe.Content
+					id := sha256.Sum256(ref.Canonical(pk, pe.CreatedAt, pe.Kind, nil, content))
+					o = map[string]any{"id": hex.EncodeToString(id[:]), "pubkey": pk, "created_at": pe.CreatedAt, "kind": pe.Kind, "tags": [][]string{}, "content": content, "sig": pe.Sig}
+					c.Frames = append(c.Frames, wsFrame{Kind: "signature-of-accepted-reused", Payload: marshalNoEscape([]any{"EVENT", o}), Names: hex.EncodeToString(id[:])})
+					continue
+				}
 				c.Frames = append(c.Frames, wsFrame{Kind: "altered-copy-of-accepted", Payload: marshalNoEscape([]any{"EVENT", o}), Names: prev.Msg.Ev.Event().ID})
 				continue
 			}
